@@ -1,6 +1,8 @@
 package props
 
 import (
+	"strings"
+	"fmt"
 
 	"github.com/zitadel/saml/pkg/provider/key"
 
@@ -157,7 +159,7 @@ func init() {
 		})
 	}
 	concRegistry["C02"] = func() []concScenario {
-		return cbConcScenarios(func(w *world.World, s cbSession, rep *world.Reply, m *obs.Msg) []string {
+		return append(c02SSOConcScenarios(), cbConcScenarios(func(w *world.World, s cbSession, rep *world.Reply, m *obs.Msg) []string {
 			if s.T.StoredID == "no-such-id" {
 				if m.Kind == obs.KindForm || m.Kind == obs.KindRedirect {
 					return []string{"callback-for-an-unknown-id-delivers-a-message-to-some-endpoint"}
@@ -167,6 +169,72 @@ func init() {
 			var out []string
 			c02CheckStored(m, rep, s.T.ACS, s.T.Binding, func(c string) { out = append(out, c) }, "concurrent-callback")
 			return out
-		})
+		})...)
 	}
+}
+
+// c02SSOConcScenarios: two SSO requests at the same time on one provider - two service providers, the SAME AuthnRequest ID (ids are
+// requester-chosen), both bindings, valid and refused ones. Each request that is sent on to the login was persisted BY ITSELF with a
+// pair registered for ITS issuer, and is sent on with the id storage returned for it; each error reply goes to an entry of its issuer.
+func c02SSOConcScenarios() []concScenario {
+	bodies := []struct {
+		Name string
+		P    ssoP
+	}{
+		{"sso-A", ssoP{}},
+		{"sso-B-same-request-id", ssoP{Issuer: "b"}},
+		{"sso-B-post-same-request-id", ssoP{Issuer: "b", Transport: "post"}},
+		{"sso-A-post-requests-redirect-binding", ssoP{Transport: "post", ProtoB: "redirect"}},
+		{"sso-A-expired-same-request-id", ssoP{NOOA: "-1us"}},
+		{"sso-B-foreign-destination-same-request-id", ssoP{Issuer: "b", Dest: "host"}},
+	}
+	var out []concScenario
+	for i := range bodies {
+		for j := i; j < len(bodies); j++ {
+			bi, bj := bodies[i], bodies[j]
+			ps := [2]ssoP{bi.P, bj.P}
+			var truths [2]*ssoTruth
+			out = append(out, concScenario{
+				Name: bi.Name + " || " + bj.Name,
+				Build: func() (*world.World, []func() *world.Reply) {
+					w, r0, t0 := ssoBuild(ps[0])
+					_, r1, t1 := ssoBuild(ps[1])
+					truths = [2]*ssoTruth{t0, t1}
+					return w, []func() *world.Reply{func() *world.Reply { return w.Do(r0) }, func() *world.Reply { return w.Do(r1) }}
+				},
+				Judge: func(w *world.World, reps []*world.Reply, _ *sched.Exec) []concFinding {
+					var fs []concFinding
+					for t, rep := range reps {
+						if rep.Panic != "" {
+							continue
+						}
+						v := c02Verdict{Detail: map[string]any{}}
+						o := ssoOutcomeOf(rep)
+						c02JudgeSSO(&v, truths[t], o, "")
+						if rep.Status == 303 {
+							// sent on to the login: with the id of a record THIS request persisted
+							own := false
+							for _, c := range rep.Calls {
+								if c.Op == "CreateAuthRequest" && c.Err == "" && strings.HasSuffix(rep.Header.Get("Location"), c.Result) {
+									own = true
+								}
+							}
+							if !own {
+								v.Clauses = append(v.Clauses, "sent-to-the-login-with-a-record-this-request-did-not-persist")
+							}
+						}
+						seen := map[string]bool{}
+						for _, c := range v.Clauses {
+							if !seen[c] {
+								seen[c] = true
+								fs = append(fs, concFinding{Clause: c, Thread: t, Detail: fmt.Sprint(v.Detail)})
+							}
+						}
+					}
+					return fs
+				},
+			})
+		}
+	}
+	return out
 }
